@@ -253,4 +253,5 @@ def r16_4(ctx):
 
 
 def run(ctx):
-    return r16_1(ctx) + r16_2_3(ctx) + r16_4(ctx)
+    from runner import collect
+    return collect(ctx, r16_1, r16_2_3, r16_4)
